@@ -95,6 +95,8 @@ pub struct MixWorld {
 	pub frames_rendered: u64,
 	/// model clock for resume_at(clock) scenarios (None = clock does not exist)
 	pub clock: Option<ClockNow>,
+	pub clock_handle: Option<kira::clock::ClockHandle>,
+	pub clock_id: Option<kira::clock::ClockId>,
 }
 
 pub fn tween(dur: f64) -> Tween {
@@ -157,6 +159,33 @@ impl MixWorld {
 			main_fx: fxm,
 			frames_rendered: 0,
 			clock: None,
+			clock_handle: None,
+			clock_id: None,
+		}
+	}
+
+	/// a clock that exists but is not ticking yet
+	pub fn add_clock(&mut self) {
+		let h = self.m.add_clock(kira::clock::ClockSpeed::TicksPerSecond(1.0)).expect("clock");
+		self.clock_id = Some(h.id());
+		self.clock_handle = Some(h);
+		self.clock = Some(ClockNow {
+			ticking: false,
+			ticks: 0,
+			fraction: 0.0,
+		});
+	}
+	pub fn start_clock(&mut self) {
+		if let Some(h) = self.clock_handle.as_mut() {
+			h.start();
+			if let Some(c) = self.clock.as_mut() {
+				c.ticking = true;
+			}
+		}
+	}
+	pub fn drop_clock(&mut self) {
+		if self.clock_handle.take().is_some() {
+			self.clock = None;
 		}
 	}
 
@@ -208,7 +237,7 @@ impl MixWorld {
 			removed: false,
 			persist: cfg.persist,
 			volume: ParamModel::new(Decibels(cfg.volume_db)),
-			psm: PlaybackModel::new(),
+			psm: PlaybackModel::new_track(),
 			fx: fxm,
 			routes,
 		});
